@@ -102,7 +102,9 @@ package risor
 //@ func (*Config).init
 //@ props C11
 //@ requires cfg != nil && cfg.globals != nil
-//@ ensures[C11.init.once] old(cfg.initialized) ==> result == nil && cfg.globals == old(cfg.globals) && forallA(k, string, haskey(cfg.globals, k) == old(haskey(cfg.globals, k)))
+// (a second call changes nothing and answers the error of the first - KF-79 fixed: the error used to be dropped)
+//@ ensures[C11.init.once] old(cfg.initialized) ==> result == old(cfg.initErr) && cfg.globals == old(cfg.globals) && forallA(k, string, haskey(cfg.globals, k) == old(haskey(cfg.globals, k)))
+//@ ensures[C11.init.err.kept] result == cfg.initErr
 //@ ensures[C11.init.flag] cfg.initialized
 //@ ensures[C11.init.denied] !old(cfg.initialized) && result == nil ==> forallA(k, string, haskey(cfg.denylist, k) && !contains(k, ".") && !haskey(cfg.overrides, k) ==> !haskey(cfg.globals, k))
 
